@@ -2,6 +2,7 @@ package core
 
 import (
 	"encoding/binary"
+	"sync/atomic"
 	"fmt"
 	"math/rand/v2"
 	"os"
@@ -69,6 +70,10 @@ type Ctx struct {
 
 const crashBufSize = 1 << 20
 
+// progress counts cases begun; the only reader is the per-case CPU watchdog of the worker.
+// It is the monitor's own state and is never touched by code under test.
+var progress int64
+
 func newCtx(prop, tier string, seed int64, shard, nshards int, kf *KnownFindings) *Ctx {
 	return &Ctx{
 		Prop: prop, Tier: tier, Seed: seed, Shard: shard, NShards: nshards, KF: kf,
@@ -113,6 +118,7 @@ func (c *Ctx) openCrashBuf(path string) {
 func (c *Ctx) Begin(cs *Case) {
 	c.cur = cs
 	c.Res.Evaluations++
+	atomic.AddInt64(&progress, 1)
 	if c.crash != nil {
 		c.scratch = cs.appendBinary(c.scratch[:0])
 		if len(c.scratch)+8 <= len(c.crash) {
